@@ -394,6 +394,10 @@ func runC03(c *Ctx) {
 			}, CutSpec{Edges: FactEdge(evType("Errored"))}, 1)
 		}
 	}
+
+	// ---------- R03.8 the controller runtime's cached ContextWithTeardown (same obligations as C15 R15.6)
+	c.Import(runC15, "R15.6", "", "R03.8", "E1", "cached ContextWithTeardown: a waiter channel is closed on TearingDown put / any remove, deleted only together with its close, never removed by one of the callers sharing it; immediate cancel when absent or tearing down", 9)
+
 }
 
 func detailSet(dst *string, v string) { *dst = v }
